@@ -1424,22 +1424,26 @@ class Renderer:
         """names assigned in stmts that are not declared there (need a `free` declaration in a function body)"""
         return set()
 
-    def header(self):
+    def header(self, helpers=True):
         L = [(0, '#include "aldor"'), (0, '#include "aldorio"'),
              (0, "import from MachineInteger, Integer, String, Character, TextWriter, Boolean;"),
              (0, "import from List MachineInteger, Array MachineInteger;")]
         # output helpers: the value is computed (with all its effects) before anything is written
-        for t in (MI, Z, BOOL, STR, LIST):
+        for t in ((MI, Z, BOOL, STR, LIST) if helpers else ()):
             L.append((0, 'pr%s(tg: String, x: %s): () == { stdout << "@ " << tg << x << newline; }' % (t, self.T(t))))
         for l in getattr(self, "extra_top", ()):
             L.append((0, l))
         return L
 
-    def top(self):
-        L = self.header()
+    def top(self, part="all"):
+        """part: 'all' = one unit; 'lib' = every definition but no main and no output helpers; 'client' = main against library LB"""
+        L = self.header(helpers=(part != "lib"))
         d = self.d
-        for ex in d["excs"]:
-            L += [(0, "define %s: Category == with;" % ex), (0, "%sObj: %s == add;" % (ex, ex))]
+        if part == "client":
+            L += [(0, '#library LB "lb.ao"'), (0, "import from LB;")]
+        if part != "client":
+            for ex in d["excs"]:
+                L += [(0, "define %s: Category == with;" % ex), (0, "%sObj: %s == add;" % (ex, ex))]
         for rn, fs in d["recs"]:
             L.append((0, "%s ==> Record(%s);" % (rn, ", ".join("%s: %s" % (fn, self.T(ft)) for fn, ft in fs))))
             L.append((0, "import from %s;" % rn))
@@ -1448,6 +1452,20 @@ class Renderer:
             L.append((0, "import from %s;" % un))
         for m in d["macros"]:
             L.append((0, "%s(%s) ==> %s;" % (m[0], ", ".join(m[3]), self.x(m[4]))))
+        if part != "client":
+            L += self.defs()
+        if part == "lib":
+            return L
+        main = self.prog[2]
+        if self.prog[3]:
+            L += self.blk(main, 0)
+        else:
+            L += [(0, "main(): () == {")] + self.blk(main, 1) + [(0, "}"), (0, "main();")]
+        return L
+
+    def defs(self):
+        L = []
+        d = self.d
         for g in d["gens"]:
             L += [(0, "%s(%s: MachineInteger): Generator MachineInteger == generate {" % (g[0], g[2])),
                   (1, "%s: MachineInteger := (0@MachineInteger);" % g[1]),
@@ -1472,19 +1490,19 @@ class Renderer:
         for f in d["funcs"]:
             ps = ", ".join("%s: %s" % (pn, self.T(pt)) for pn, pt in f["params"])
             L += [(0, "%s(%s): %s == {" % (f["name"], ps, self.T(f["ret"])))] + self.blk(f["body"], 1) + [(1, self.x(f["final"])), (0, "}")]
-        main = self.prog[2]
-        if self.prog[3]:
-            L += self.blk(main, 0)
-        else:
-            L += [(0, "main(): () == {")] + self.blk(main, 1) + [(0, "}"), (0, "main();")]
         return L
 
-    def text(self):
-        return "\n".join("\t" * i + t for i, t in self.top()) + "\n"
+    def text(self, part="all"):
+        return "\n".join("\t" * i + t for i, t in self.top(part)) + "\n"
 
 
 def render(prog):
     return Renderer(prog).text()
+
+
+def render_split(prog):
+    """(library unit, client unit): the same program with its definitions compiled separately from its main block"""
+    return Renderer(prog).text("lib"), Renderer(prog).text("client")
 
 
 # --------------------------------------------------------------------------------------------- ill-typed mutants (C06, C13, C15)
